@@ -53,6 +53,10 @@ struct Transport(Arc<Mutex<Shared>>);
 impl AsyncRead for Transport {
     fn poll_read(self: Pin<&mut Self>, cx: &mut Context<'_>, buf: &mut ReadBuf<'_>) -> Poll<io::Result<()>> {
         let mut s = self.0.lock().unwrap();
+        if s.rerr {
+            // persistent failure (e.g. a reset connection): nothing more is ever read
+            return Poll::Ready(Err(io::Error::new(io::ErrorKind::ConnectionReset, "injected read error")));
+        }
         if !s.inbox.is_empty() {
             let n = s.inbox.len().min(buf.remaining());
             for _ in 0..n {
@@ -60,9 +64,6 @@ impl AsyncRead for Transport {
                 buf.put_slice(&[b]);
             }
             return Poll::Ready(Ok(()));
-        }
-        if s.rerr {
-            return Poll::Ready(Err(io::Error::new(io::ErrorKind::ConnectionReset, "injected read error")));
         }
         if s.eof {
             return Poll::Ready(Ok(()));
